@@ -18,6 +18,25 @@ NOT_APPLICABLE = {
 }
 PENDING_REASON = "monitor not implemented yet in this framework (work in progress, see DESIGN.md)"
 
+
+LEVEL_TEXT = {
+ "C01": "Exploration with a reference-model oracle: every planner x f32/f64 x direction x entry point is executed on the complete impulse basis (small n), on impulses + a DC vector for every n up to the sweep bound and on dense vectors, and compared with an independent double-double DFT; the portable code is additionally decided with no tolerance in a prime field. A linear, data-oblivious transform is determined by its action on the basis, so for the lengths run the input quantifier is closed up to the rounding tolerance; lengths not run are not covered.",
+ "C02": "Exploration: relative L2 error against a double-double reference for nine input classes plus the impulse basis, with the worst err/B(n) per octave of n reported so that a drift towards eps*sqrt(n) or eps*n is visible long before the bound is crossed. Decides the stated bound on the executions run; says nothing about the asymptotic claim beyond the largest n.",
+ "C03": "Exploration under instrumentation: the real code runs on guard-paged, minimally aligned buffers of exactly the advertised sizes (native, release and debug-assertion builds), under Miri at four target-feature levels (byte-precise bounds, alignment, aliasing, uninitialised reads, unavailable target features) and, thorough tier, under ASan and valgrind memcheck. A clean run is not memory safety: paths and lengths not driven are not covered, red-zone tools miss far overflows (that is why Miri and the crate's own index assertions run too).",
+ "C04": "Exhaustive exploration of the finite range: every n up to the bound is planned and constructed by every planner, type, direction and API variant with a panic observer, through fresh planners, planners with divisor-chain histories and long-lived planners; recipes up to 2^22 (thorough) through the plan-report hook.",
+ "C05": "Exploration with an instrumented element type: exact counts of +,-,* of the portable transform (input-independent by construction of the check: three inputs must give identical counts), the scratch lengths of every built transform incl. planners with history, and the plan text of every planner; the hook selects the deepest Rader/Bluestein nestings for counting. The SIMD kernels' work is not counted (f32/f64 cannot be instrumented), only their plans and scratch.",
+ "C06": "Exploration with oracle-free algebraic identities (round trip in both orders and both planning orders, conjugation identity), which reach far larger n than the reference model; every prime up to the bound is swept because the special algorithms and their number theory live there.",
+ "C07": "Exploration with a differential oracle (multi-chunk vs single-chunk, bitwise or within 2.5B) and NaN-taint isolation, k = 1..8, rotating scratch lengths, all entry points, planner-produced and constructed instances.",
+ "C08": "Exploration with taint and bitwise differencing: scratch of exactly the advertised length on guard pages must suffice; NaN/Inf/huge initial contents of scratch and output and longer scratch must not change a single output bit.",
+ "C09": "Exploration with a panic observer over the call-shape matrix (data/out/scratch lengths), on guard pages so that 'did not panic' cannot hide behind an out-of-bounds read; well-shaped calls are also checked to have transformed every chunk.",
+ "C10": "Bounded-exhaustive exploration of request histories (all sequences of length <= 3 over a pool built from every planner's base kinds and their inner lengths) plus random histories over divisor lattices; every returned transform is checked after its planner is dropped, against the reference model, its same-planner partner and a twin planner (bitwise).",
+ "C11": "Exploration of schedules: 16 threads on one shared instance with reused dirty per-thread buffers, references from a twin instance so that first calls race, bitwise comparison; the same workload under ThreadSanitizer. Measured overlap of calls is reported. The 'for all interleavings' quantifier is only sampled; the structural half of the property (no interior mutability anywhere) is a static claim this family cannot decide.",
+ "C12": "Bounded-exhaustive exploration of programs: constructor trees of depth <= 2 generated inside the documented preconditions (plus random trees to depth 4 and planner-produced leaves of any length), each checked exactly in a prime field, against the reference in f32/f64 and by the C03/C07/C08/C09 monitors on guard pages; a sample under Miri / debug assertions / ASan.",
+ "C13": "Exploration of configurations: four cargo feature builds x four masked CPU capability levels (hook) x types, each with the constructor truth table, planning sweep, reference-model monitor and guard-page matrix; plus Miri at five target-feature/feature-set levels where entering a kernel whose instruction set is unavailable is reported as UB. Real CPUs without AVX2/SSE4.1 are emulated, NEON/WASM code is not executed.",
+ "C14": "Exploration with instrumented element types: a prime-field type (exact equality with the DFT, any non-ring operation recorded), a double-double type, and 4- and 8-byte wrapper types that must be bit-identical to the portable float transform; every SIMD planner must decline each of them.",
+ "C15": "Exploration with read-only input pages (a store faults even if it writes the same bits), a bitwise before/after comparison that also runs after panicking calls, and Miri (a store through the shared reference is UB and is reported even when an optimised build deletes it).",
+}
+
 ALL = ["C%02d" % i for i in range(1, 17)]
 checks = []
 for pid in ALL:
@@ -33,8 +52,7 @@ for pid in ALL:
         engine="fftmon",
         level_claimed=dict(
             category="exploration",
-            text=p.get("level_text", "held on the executions listed in the evidence file; runtime monitoring of the real code under "
-                       "diverse and hostile workloads, oracle = " + p["title"]),
+            text=LEVEL_TEXT.get(pid, p.get("level_text", "held on the executions listed in the evidence file")),
             design_ref="DESIGN.md section 5 / " + pid,
         ),
         level_note=p.get("level_note", "trusted base: the harness oracles (double-double reference DFT, finite-field type, guard pages), "
